@@ -430,7 +430,10 @@ class IPVPNBase(Label):
         # Extract RD bytes from _packed
         label_end = self._label_end_offset
         rd_packed = self._packed[label_end : label_end + RD_SIZE] if self._has_rd else b''
-        return Family.index(self) + bytes(addpath) + mask + bytes(rd_packed) + self.cidr.pack_ip()
+        # the tag is 4, 5 or 8 bytes long: it carries its length so that it can not run into the mask
+        return (
+            Family.index(self) + bytes([len(addpath)]) + bytes(addpath) + mask + bytes(rd_packed) + self.cidr.pack_ip()
+        )
 
     def prefix_index(self) -> bytes:
         rd_bits = RD_SIZE_BITS if self._has_rd else 0
